@@ -47,13 +47,24 @@ Proof. exact abs_keeps_order. Qed.
 Print Assumptions C08_order_abs.
 
 (* insert / replace: an existing key keeps its position, a new key goes last, the key then holds
-   the new value and every other key holds what it held *)
-Theorem C08_order_insert : forall k x l,
+   the new value and every other key holds what it held.  (`e_get k l <> Some PNone`: the key does
+   not hold a bare `Item::None` placeholder — true of every document reached from a parsed one, see
+   C08_step_wf; such a placeholder counts as absent: C08_order_insert_placeholder.) *)
+Theorem C08_order_insert : forall k x l, e_get k l <> Some PNone ->
   map fst (e_put k x l) = match e_get k l with Some _ => map fst l | None => map fst l ++ [k] end
   /\ e_get k (e_put k x l) = Some x
   /\ forall k2, bytes_eqb k2 k = false -> e_get k2 (e_put k x l) = e_get k2 l.
-Proof. intros k x l. repeat split; [apply e_put_keys|apply e_put_get_same|intros; apply e_put_get_other; assumption]. Qed.
+Proof.
+  intros k x l H. repeat split; [apply e_put_keys; exact H|apply e_put_get_same|intros; apply e_put_get_other; assumption].
+Qed.
 Print Assumptions C08_order_insert.
+
+(* a key that only holds a placeholder is new: the placeholder is forgotten, the entry goes last
+   (the repair of C16-placeholder-residue: Table::insert / entry / IndexMut drop it first) *)
+Theorem C08_order_insert_placeholder : forall k x l, e_get k l = Some PNone ->
+  e_put k x l = e_put0 k x (e_del k l).
+Proof. exact e_put_placeholder. Qed.
+Print Assumptions C08_order_insert_placeholder.
 
 (* remove: the surviving entries keep their relative order and values *)
 Theorem C08_order_remove : forall k l,
